@@ -2109,3 +2109,11 @@ mod tests {
         );
     }
 }
+
+#[cfg(adlt_verif)]
+impl Lifecycle {
+    /// verification hook (H3): id of the lifecycle this one is a resume of
+    pub fn verif_resumed_lc_id(&self) -> Option<LifecycleId> {
+        self.resume_lc.as_ref().map(|r| r.id)
+    }
+}
